@@ -149,7 +149,7 @@ def dist_fn(dist, c, a, b):
 
 
 def run(ctx):
-    n = 1500 if ctx.tier == "quick" else 30000
+    n = ctx.n(1500, 30000)
     rng = core.Rng(ctx.seed)
     cases = [gen_case(rng.fork("case%d" % i)) for i in range(n)]
     im, mo = run_with_tables(ctx, cases)
